@@ -296,15 +296,25 @@ def k_history(run, case):
             op_path = os.path.join(os.environ.get("VMON_WORK", "."), "other_%d.json" % case["rs"][-1])
             open(op_path, "w").write(json.dumps(other))
             argv = ["set", "-m", op_path] + (["--soft"] if op == "merge_soft" else [])
+            also_set = {}
+            numeric = [k for k in other if k in before and isinstance(before[k], (int, float)) and not isinstance(before[k], bool)]
+            if numeric and rng.random() < .35:
+                # parameters named on the same command line as the merge file, one of them also in
+                # the file: the parameters are set, then the file is merged in (a hard merge has
+                # priority, a soft merge keeps what is there)
+                k = numeric[rng.integers(len(numeric))]
+                also_set[k] = before[k] + 7
+                argv += [k, repr(also_set[k])]
             r = cli.run_cli("config", argv)
             after = load_file()
             run.check(r.ok, "evo_config set -m runs", case, "merge failed: %r" % r, key="merge:failed")
             ok = True
             for k in set(before) | set(other):
+                base_v = also_set.get(k, before.get(k))
                 if op == "merge_hard":
-                    want = other[k] if k in other else before[k]
+                    want = other[k] if k in other else base_v
                 else:
-                    want = before[k] if k in before else other[k]
+                    want = base_v if k in before else other[k]
                 if k not in after or not same_json_value(after[k], want):
                     ok = False
                     bad = (k, after.get(k), want)
@@ -316,7 +326,7 @@ def k_history(run, case):
                     shadow_user[k] = other[k]
             else:
                 for k in other:
-                    shadow_user.setdefault(k, before.get(k, other[k]))
+                    shadow_user.setdefault(k, also_set.get(k, before.get(k, other[k])))
             os.remove(op_path)
         elif op == "upgrade":
             cur = load_file()
@@ -324,6 +334,10 @@ def k_history(run, case):
             dropped = [k for k in D if k in cur and k not in shadow_user and rng.random() < .15]
             for k in dropped:
                 cur.pop(k)
+            if rng.random() < .5:
+                # the older release also knew settings that no longer exist: as many or more than are missing now
+                for k in range(len(dropped) + int(rng.integers(0, 3))):
+                    cur["setting_removed_in_a_later_release_%d" % k] = k
             open(path, "w").write(json.dumps(cur, indent=4, sort_keys=True))
             open(settings.USER_ASSETS_VERSION_PATH, "w").write("v0.0.1-old")
             rc, err, loaded = fresh_start(os.environ["HOME"])
